@@ -22,6 +22,7 @@ RUNS = {"quick": 3500, "thorough": 60000}
 TIMEOUT = 300
 CPU_LIMIT = 4
 CHUNK = 50
+ISOLATE = True  # one forked child per run with a hard CPU limit (optimisers may hang inside C code)
 RULE = (
     "each run draws (algorithm from the optimisation or DOE factory, problem template, dimension, normalisation/database/Jacobian-storage/"
     "rounding settings, budget N, tolerances, optional max_time, fault plan: NaN at the j-th distinct point, ValueError at the j-th DOE sample, "
@@ -41,7 +42,10 @@ ASSUMPTIONS = [
 
 COMPOSITE = {"MultiStart", "Augmented_Lagrangian_order_0", "Augmented_Lagrangian_order_1", "MNBI"}
 LINEAR_ONLY = {"INTERIOR_POINT", "DUAL_SIMPLEX", "Scipy_MILP"}
-SKIP_DOE = {"OT_SOBOL_INDICES", "MorrisDOE", "OATDOE"}  # need a dedicated setup; sampled under C14 elsewhere
+# OT_SOBOL_INDICES, MorrisDOE, OATDOE need a dedicated setup. PYDOE_CCDESIGN generates star points outside the
+# bounds of the design space (a C14 matter); when such a point is the best one, execute raises while recording
+# the optimum as current value - outside the clauses of C03, see DESIGN.md 10.5
+SKIP_DOE = {"OT_SOBOL_INDICES", "MorrisDOE", "OATDOE", "PYDOE_CCDESIGN"}
 _CACHE = {}
 
 
@@ -53,6 +57,17 @@ def factories():
         of, df = OptimizationLibraryFactory(), DOELibraryFactory()
         _CACHE["f"] = (of, df, sorted(of.algorithms), sorted(df.algorithms))
     return _CACHE["f"]
+
+
+def warmup():
+    of, dfac, opt_algos, doe_algos = factories()
+    for name in opt_algos:
+        of.create(name)
+    for name in doe_algos:
+        if name not in SKIP_DOE:
+            dfac.create(name)
+    of.clear_lib_cache()
+    dfac.clear_lib_cache()
 
 
 class Runaway(BaseException):
@@ -345,6 +360,7 @@ def run_driver(ctx, focus):
 
         problem.database.add_store_listener(listener)
     total_new = 0
+    since_reset = 0  # new entries created since the counters were last reset, counted by the harness
     with rebind([("gemseo.algos.base_driver_library", "time", clock.time)]):
         for e in range(n_exec):
             with t.frame("execute"):
@@ -357,6 +373,16 @@ def run_driver(ctx, focus):
                     kw["reset_iteration_counters"] = reset
                     if not cfg["doe"] and t.flag(0.5, "raise_budget"):
                         kw["max_iter"] = settings["max_iter"] + t.randint(1, 5, "extra_budget")
+                    if cfg["doe"] and t.flag(0.6, "other_samples"):
+                        # a continued DOE over other points
+                        if "samples" in kw:
+                            kw["samples"] = kw["samples"] + 0.125 * e
+                        elif "seed" in kw:
+                            kw["seed"] = kw["seed"] + e
+                        elif "random_state" in kw:
+                            kw["random_state"] = kw["random_state"] + e
+                if e == 0 or reset:
+                    since_reset = 0
                 lib = fac.create(lib_name)
                 keys_before = {tuple(float(v) for v in x.wrapped_array) for x in problem.database.keys()}
                 t_start = clock.now
@@ -372,9 +398,11 @@ def run_driver(ctx, focus):
                     lib._clear_listeners(problem)
                 n_new = len(problem.database) - n_before
                 total_new += n_new
-                allowed = kw.get("max_iter", budget)
-                if e > 0 and not reset:
-                    allowed = max(0, allowed - counter_before)
+                if cfg["doe"]:
+                    allowed = max(0, len(lib.samples) - since_reset) if len(getattr(lib, "samples", ())) else budget
+                else:
+                    allowed = max(0, kw.get("max_iter", budget) - since_reset)
+                since_reset += n_new
                 ctx.event("exec", e, canon(None if result is None else (result.x_opt, result.f_opt, result.is_feasible, str(result.message))),
                           canon(exc), len(problem.database), problem.evaluation_counter.current)
                 if result is not None and "Maximum time reached" in str(result.message) and "max_time" in kw:
@@ -462,6 +490,8 @@ def check_execution(ctx, cfg, sig, e, problem, tracked, result, exc, n_new, allo
         ctx.violate("C03.returns_result", sig + " returned None", f"execution {e} returned None; cfg={cfg}")
     keys = [tuple(float(v) for v in x.wrapped_array) for x in problem.database.keys()]
     keyset = set(keys)
+    if cfg["doe"] and n_new > allowed and use_db:
+        ctx.violate("C03.budget_entries", sig + " cumulative", f"execution {e} created {n_new} new database entries, {allowed} were left of the budget (number of samples, cumulative without counter reset); cfg={cfg}")
     if not cfg["doe"] and not composite and not cfg["linear"]:
         # 2. at most N new entries
         if n_new > allowed:
